@@ -474,9 +474,51 @@ func (p *Prog) checkComposePaths(c *Ctx, fd *ast.FuncDecl, ps []types.Object) {
 	ifForm, ok1 := body[1].(*ast.IfStmt)
 	ifNeg, ok2 := body[2].(*ast.IfStmt)
 	ret, ok3 := body[3].(*ast.ReturnStmt)
-	if !ok1 || !ok2 || !ok3 || ifForm.Else == nil || ifNeg.Else != nil {
+	if !ok1 || !ok2 || !ok3 || ifNeg.Else != nil {
 		c.undecided("compose.shape", fd, "compose body must be: var hi; form switch; sign; return")
 		return
+	}
+	// the word under construction: declared by the first statement
+	var hiObj types.Object
+	var dflt ast.Expr // `hi := A` default-then-override form: A is the implicit else arm
+	switch d := body[0].(type) {
+	case *ast.DeclStmt:
+		if gd, ok := d.Decl.(*ast.GenDecl); ok && gd.Tok == token.VAR && len(gd.Specs) == 1 {
+			if vs := gd.Specs[0].(*ast.ValueSpec); len(vs.Names) == 1 {
+				hiObj = p.Info.Defs[vs.Names[0]]
+				if len(vs.Values) == 1 {
+					dflt = vs.Values[0]
+				}
+			}
+		}
+	case *ast.AssignStmt:
+		if d.Tok == token.DEFINE && len(d.Lhs) == 1 && len(d.Rhs) == 1 {
+			hiObj = p.objOf(d.Lhs[0])
+			dflt = d.Rhs[0]
+		}
+	}
+	if hiObj == nil || (ifForm.Else == nil) != (dflt != nil) {
+		c.undecided("compose.shape", fd, "compose body must be: var hi; form switch; sign; return")
+		return
+	}
+	if dflt != nil {
+		// `hi := A; if C { hi = B }` is `if C { hi = B } else { hi = A }` when A is
+		// pure and neither C nor B reads hi.
+		reads := false
+		ast.Inspect(ifForm, func(n ast.Node) bool {
+			if id, ok := n.(*ast.Ident); ok && p.Info.Uses[id] == hiObj {
+				if !(len(ifForm.Body.List) == 1 && isLhsOf(ifForm.Body.List[0], id)) {
+					reads = true
+				}
+			}
+			return true
+		})
+		if reads || !p.pureExpr(dflt) {
+			c.undecided("compose.shape", fd, "compose body must be: var hi; form switch; sign; return")
+			return
+		}
+		ifForm = &ast.IfStmt{If: ifForm.If, Cond: ifForm.Cond, Body: ifForm.Body, Else: &ast.BlockStmt{Lbrace: body[0].Pos(), Rbrace: body[0].End(), List: []ast.Stmt{
+			&ast.AssignStmt{Lhs: []ast.Expr{ast.NewIdent("_")}, TokPos: body[0].Pos(), Tok: token.ASSIGN, Rhs: []ast.Expr{dflt}}}}}
 	}
 	// form switch condition: sig[1] > 2^49-1 (or the complementary `<=` with the arms swapped)
 	okCond := false
@@ -509,6 +551,9 @@ func (p *Prog) checkComposePaths(c *Ctx, fd *ast.FuncDecl, ps []types.Object) {
 		}
 		as, ok := list[0].(*ast.AssignStmt)
 		if !ok || len(as.Lhs) != 1 || len(as.Rhs) != 1 || as.Tok != token.ASSIGN {
+			return bitvec{}, false
+		}
+		if id, _ := as.Lhs[0].(*ast.Ident); (id == nil || id.Name != "_" || id.Obj != nil) && p.objOf(as.Lhs[0]) != hiObj {
 			return bitvec{}, false
 		}
 		env := &bvEnv{p: p, vars: map[types.Object]bitvec{}}
@@ -554,7 +599,7 @@ func (p *Prog) checkComposePaths(c *Ctx, fd *ast.FuncDecl, ps []types.Object) {
 	if len(ret.Results) == 1 {
 		if cl, ok := ret.Results[0].(*ast.CompositeLit); ok && len(cl.Elts) == 2 {
 			env := p.newCanonEnv(fd)
-			okRet = env.canon(cl.Elts[0]) == "P1[K(0)]" && p.objOf(cl.Elts[1]) != nil && p.exprStr(cl.Elts[1]) == "hi"
+			okRet = env.canon(cl.Elts[0]) == "P1[K(0)]" && p.objOf(cl.Elts[1]) == hiObj
 			if _, isKV := cl.Elts[0].(*ast.KeyValueExpr); isKV {
 				okRet = false
 			}
@@ -575,4 +620,46 @@ func (p *Prog) decimalFieldOrder() bool {
 	}
 	return st.Field(0).Name() == "lo" && st.Field(1).Name() == "hi" &&
 		types.Identical(st.Field(0).Type(), types.Typ[types.Uint64]) && types.Identical(st.Field(1).Type(), types.Typ[types.Uint64])
+}
+
+// pureExpr reports whether evaluating e has no effect and cannot panic: names, literals, constant
+// limb indexing, fields, conversions and non-dividing operators only.
+func (p *Prog) pureExpr(e ast.Expr) bool {
+	switch x := ast.Unparen(e).(type) {
+	case *ast.Ident, *ast.BasicLit:
+		return true
+	case *ast.IndexExpr:
+		if _, ok := p.constInt64(x.Index); !ok {
+			return false
+		}
+		if t := p.typeOf(x.X); t != nil {
+			if _, isArr := t.Underlying().(*types.Array); !isArr {
+				return false
+			}
+		}
+		return p.pureExpr(x.X)
+	case *ast.SelectorExpr:
+		return p.pureExpr(x.X)
+	case *ast.BinaryExpr:
+		if x.Op == token.QUO || x.Op == token.REM {
+			return false
+		}
+		return p.pureExpr(x.X) && p.pureExpr(x.Y)
+	case *ast.UnaryExpr:
+		if x.Op == token.ARROW || x.Op == token.AND {
+			return false
+		}
+		return p.pureExpr(x.X)
+	case *ast.CallExpr:
+		if tv, ok := p.Info.Types[x.Fun]; ok && tv.IsType() && len(x.Args) == 1 {
+			return p.pureExpr(x.Args[0])
+		}
+	}
+	return false
+}
+
+// isLhsOf reports whether id is the sole assignment target of statement s.
+func isLhsOf(s ast.Stmt, id *ast.Ident) bool {
+	as, ok := s.(*ast.AssignStmt)
+	return ok && len(as.Lhs) == 1 && ast.Unparen(as.Lhs[0]) == ast.Expr(id)
 }
